@@ -51,6 +51,9 @@ def header_writes(prog, fn):
             out.append((b, kind, n))
         elif c.startswith("rabuf::SmallWrite::") and nm in WIDTH:
             v = const_val(t["args"][1])
+            if v is None:
+                from .util import const_origin, origins as _or
+                v = const_origin(_or(prog, fn, t["args"][1], at=b))      # `let reserve0: u64 = 0; write_u64_le(reserve0)`
             out.append((b, "zero" if v == 0 else "value", WIDTH[nm]))
     out.sort(key=lambda x: len(fn.dominators().get(x[0], ())))
     return out
